@@ -841,16 +841,14 @@ func c18(args []string) int {
 	sIncr := seeds("W3 W3 SW D SW", "W3 W3 SW SNAP D IVAC SW", "W3 W3 SW VOPEN D IVAC SW", "W1 SW W1 SW CMP:1 W1 SW VOPEN")
 	sPoll := seeds("W3 SW VOPEN", "W3 SW W1 SW CMP:1 W1 SW VOPEN")
 	sLock := seeds("W3 W3 SW VOPEN VLOCK", "W1 SW CMP:1 W3 SW VOPEN W1 SW VLOCK")
-	sGap := seeds("W1 SW VOPEN W1 SW W1 SW W1 SW", "W1 SW W1 SW CMP:1 W1 SW VOPEN W1 SW W1 SW", "W1 SW CMP:1 W1 SW CMP:1 CMP:2 W1 SW VOPEN W1 SW")
+	sGap := seeds("W1 SW VOPEN W3 SW U SW W1 SW", "W1 SW W1 SW CMP:1 W1 SW VOPEN W1 SW W1 SW", "W1 SW CMP:1 W1 SW CMP:1 CMP:2 W1 SW VOPEN W1 SW")
 	sTT := seeds("W1 SW W3 SW D VAC SW W1 SW", "W1 SW W1 SW CMP:1 W1 SW SNAP W1 SW", "W3 SW W1 SW CMP:1 D VAC SW CMP:1 CMP:2 W1 SW")
 	sTTI := seeds("W3 W3 SW D IVAC SW W1 SW CMP:1 W1 SW", "W3 SW SNAP W3 SW D SW IVAC SW")
 	aExact := sub("W3 D VAC SW VOPEN VPOLL")
 	aExactI := sub("W3 D IVAC SW VOPEN VPOLL")
-	aSeed := sub("W1 W3 D VAC SW CMP:1 VPOLL VLOCK VUNLOCK")
-	aSeedI := sub("W1 W3 D IVAC SW CMP:1 VPOLL VLOCK VUNLOCK")
 	aPoll := sub("W1 D VAC SW CMP:1 VPOLL")
 	aPollI := sub("W1 D IVAC SW CMP:1 VPOLL")
-	aLock := sub("W1 D IVAC SW CMP:1 VPOLL VUNLOCK VLOCK")
+	aLock := sub("W1 D IVAC SW VPOLL VUNLOCK VLOCK")
 	aGap := sub("W1 SW CMP:1 CMP:2 RETL0A:2 VOPEN VPOLL VLOCK VUNLOCK")
 	aTT := sub("W1 D VAC SW CMP:1 SNAP VOPEN VPOLL")
 	aTTI := sub("W1 D IVAC SW CMP:1 SNAP VOPEN VPOLL")
@@ -859,19 +857,19 @@ func c18(args []string) int {
 		{Name: "exact/512-incr/cache1", Cfg: i512, Cache: one(i512), Alphabet: aExactI, Depth: d(4, 6), Seeds: seeds("W3 SW")},
 		{Name: "seeded/512-none/cache1", Cfg: n512, Cache: one(n512), Alphabet: full, Depth: d(2, 3), Seeds: sNone},
 		{Name: "seeded/512-incr/cache1", Cfg: i512, Cache: one(i512), Alphabet: full, Depth: d(2, 3), Seeds: sIncr},
-		{Name: "seeded/512-none/cache-default", Cfg: n512, Alphabet: aSeed, Depth: d(2, 3), Seeds: sNone},
-		{Name: "seeded/512-incr/cache-default", Cfg: i512, Alphabet: aSeedI, Depth: d(2, 3), Seeds: sIncr},
-		{Name: "seeded/4096-none/cache1", Cfg: n4096, Cache: one(n4096), Alphabet: aSeed, Depth: d(2, 3), Seeds: sNone},
+		{Name: "seeded/512-none/cache-default", Cfg: n512, Alphabet: aPoll, Depth: d(2, 3), Seeds: sNone},
+		{Name: "seeded/512-incr/cache-default", Cfg: i512, Alphabet: aPollI, Depth: d(2, 3), Seeds: sIncr},
+		{Name: "seeded/4096-none/cache1", Cfg: n4096, Cache: one(n4096), Alphabet: aPoll, Depth: d(2, 3), Seeds: sNone},
 		{Name: "polls/512-none/cache-default", Cfg: n512, Alphabet: aPoll, Depth: d(3, 5), Seeds: sPoll},
 		{Name: "polls/512-incr/cache1", Cfg: i512, Cache: one(i512), Alphabet: aPollI, Depth: d(3, 5), Seeds: sPoll},
 		{Name: "locked/512-incr/cache1", Cfg: i512, Cache: one(i512), Alphabet: aLock, Depth: d(3, 4), Seeds: sLock},
 		{Name: "locked/512-none/l0-pruned/cache-default", Cfg: n512p, Alphabet: sub("W1 D VAC SW CMP:1 VPOLL VUNLOCK VLOCK"), Depth: d(2, 4), Seeds: sLock},
-		{Name: "pruned/512-none/cache1", Cfg: n512p, Cache: one(n512p), Alphabet: aGap, Depth: d(2, 4), Seeds: sGap},
-		{Name: "pruned/512-incr/cache-default", Cfg: i512p, Alphabet: aGap, Depth: d(2, 4), Seeds: sGap},
-		{Name: "retention/512-none/cache1", Cfg: n512, Cache: one(n512), Alphabet: aGap, Depth: d(2, 4), Seeds: append(sGap, strings.Fields("W1 SW VOPEN W1 SW W1 SW W1 SW CMP:1"))},
+		{Name: "pruned/512-none/cache1", Cfg: n512p, Cache: one(n512p), Alphabet: aGap, Depth: d(2, 3), Seeds: sGap},
+		{Name: "pruned/512-incr/cache-default", Cfg: i512p, Alphabet: aGap, Depth: d(2, 3), Seeds: sGap},
+		{Name: "retention/512-none/cache1", Cfg: n512, Cache: one(n512), Alphabet: aGap, Depth: d(2, 3), Seeds: append(sGap, strings.Fields("W1 SW VOPEN W1 SW W1 SW W1 SW CMP:1"))},
 		{Name: "time-travel/512-none", Cfg: n512, Cache: one(n512), TT: true, Alphabet: aTT, Depth: d(1, 3), Seeds: sTT},
 		{Name: "time-travel/512-incr/l0-pruned", Cfg: i512p, TT: true, Alphabet: aTTI, Depth: d(1, 3), Seeds: sTTI},
-		{Name: "merged/512-incr/wide/cache1", Cfg: i512, Cache: one(i512), Alphabet: full, Depth: d(6, 10), Merge: true, MaxRuns: int64(d(500, 150000)), Seeds: seeds("W3 W3 SW")},
+		{Name: "merged/512-incr/wide/cache1", Cfg: i512, Cache: one(i512), Alphabet: full, Depth: d(6, 10), Merge: true, MaxRuns: int64(d(300, 40000)), Seeds: seeds("W3 W3 SW")},
 	}
 	return hc.runLayers(layers, ev.Budget(85*time.Second, 45*time.Minute),
 		[]string{
@@ -883,5 +881,5 @@ func c18(args []string) int {
 			"a view that stays behind the newest restorable TXID after a poll (liveness) is recorded as the outcome note behind-latest, not as a violation of C18",
 			"time travel: candidate times as in C15 (replication time of every TXID -1/0/+1 ms, midpoints, +-1 ms around higher-level file times); reference is Restore(Timestamp=T); both failing counts as agreement",
 		},
-		"every history over the layer alphabet (primary: W1 W3 U D IVAC VAC; replication: SW CMP:1 CMP:2 SNAP RETL0A:2; reader: VOPEN VPOLL VLOCK VUNLOCK) up to the layer depth beyond each seed prefix, page sizes 512/4096, auto_vacuum NONE/INCREMENTAL, level-0 files kept or pruned by compaction; after VOPEN, every VPOLL and VUNLOCK and a final VPOLL(+VUNLOCK): FileSize == size of Restore(TXID=Pos) and ReadAt of every page == the restored page (masked header bytes), Pos never decreases; time-travel layers: for every candidate T, SetTargetTime(T) view == Restore(Timestamp=T), ResetTime returns to the latest view")
+		"every history over the layer alphabet (primary: W1 W3 U D IVAC VAC; replication: SW CMP:1 CMP:2 SNAP RETL0A:2; reader: VOPEN VPOLL VLOCK VUNLOCK) up to the layer depth beyond each seed prefix, page sizes 512/4096, auto_vacuum NONE/INCREMENTAL, level-0 files kept or pruned by compaction; after VOPEN (a history without VOPEN ends with one), every VPOLL and VUNLOCK and a final VPOLL(+VUNLOCK): FileSize == size of Restore(TXID=Pos) and ReadAt of every page == the restored page (masked header bytes), Pos never decreases; time-travel layers: for every candidate T, SetTargetTime(T) view == Restore(Timestamp=T), ResetTime returns to the latest view")
 }
